@@ -111,6 +111,22 @@ fn replay_file_inner(path: &Path, quiet: bool) -> i32 {
     if !quiet {
         // keep stdout clean from adlt's println! by not caring: replay is for humans
     }
+    {
+        // a replay that does not end: violation for C03 (termination is part of its statement), inconclusive elsewhere
+        let (prop, pth, limit) = (rf.property.clone(), path.display().to_string(), hang_secs());
+        std::thread::spawn(move || {
+            std::thread::sleep(std::time::Duration::from_secs(limit));
+            if prop == "C03" {
+                if !quiet {
+                    println!("replay failed: the case did not end within {} s", limit);
+                    println!("VIOLATION property={} replay={}", prop, pth);
+                }
+                std::process::exit(1);
+            }
+            eprintln!("watchdog: replay did not end within {} s (inconclusive)", limit);
+            std::process::exit(2);
+        });
+    }
     for s in &def.subs {
         if s.name() == rf.subcheck {
             let (r, rep) = s.replay(&rf.case);
